@@ -713,6 +713,13 @@ class Item:
         pos = h + len(pat)
         T = self.toks
         stages = []
+        reverse = False
+        if texts(T[pos:pos + 4]) == [".", "rev", "(", ")"]:
+            # SRC must be `BASE.iter()` of an indexable BASE (Vec / slice): traversal by decreasing index
+            if pat[-4:] != [".", "iter", "(", ")"]:
+                raise LostAnchor("desugar-iter-chain: .rev() is only desugared directly after `BASE.iter()` in %s" % self.path)
+            reverse = True
+            pos += 4
         while pos + 2 < len(T) and T[pos].s == "." and T[pos + 1].s in self.ITER_ADAPTERS and T[pos + 2].s == "(":
             name = T[pos + 1].s
             c = match_close(T, pos + 2)
@@ -741,7 +748,20 @@ class Item:
                     raise LostAnchor("desugar-iter-chain: unterminated closure parameter list")
                 stages.append((name, T[a + 1:b], T[b + 1:c]))
             pos = c + 1
-        if not stages:
+        find = None
+        if texts(T[pos:pos + 2]) == [".", "find"] and T[pos + 2].s == "(":
+            c = match_close(T, pos + 2)
+            a = pos + 3
+            if T[a].s == "move":
+                a += 1
+            if T[a].s != "|":
+                raise LostAnchor("desugar-iter-chain: argument of .find(..) in %s is not a closure literal" % self.path)
+            b = a + 1
+            while b < c and T[b].s != "|":
+                b += 1
+            find = (T[a + 1:b], T[b + 1:c])
+            pos = c + 1
+        if not stages and not reverse and find is None:
             raise LostAnchor("desugar-iter-chain: no supported adapter follows `%s` in %s" % (" ".join(pat), self.path))
         if pos + 1 < len(T) and T[pos].s == "." and T[pos + 1].s in ("rev", "zip", "chain", "flat_map", "flatten", "take", "step_by", "peekable", "scan", "inspect"):
             raise LostAnchor("desugar-iter-chain: unsupported adapter .%s in %s" % (T[pos + 1].s, self.path))
@@ -843,14 +863,31 @@ class Item:
                 body += sc(" if let Some(__x%d) = __o%d {" % (k + 1, k))
                 closers += 1
                 k += 1
-        body += sc("\n %s.push(__x%d);" % (out, k)) + sc(" }" * closers)
-        new = pre + sc("\n for __x0 in") + src + sc(" {") + body + sc("\n } %s }" % out)
+        if find is not None:
+            FP = [Tok(t.ws, t.s, t.line) for t in find[0]]
+            FB = [Tok(t.ws, t.s, t.line) for t in find[1]]
+            if FP and not FP[0].ws:
+                FP[0].ws = " "
+            if FB and not FB[0].ws:
+                FB[0].ws = " "
+            body += sc("\n let __cf = { let") + FP + sc(" = &__x%d;" % k) + FB + sc(" }; if __cf { %s = Some(__x%d); break; }" % (out, k)) + sc(" }" * closers)
+            pre = sc("{ let mut %s: Option<%s> = None;" % (out, elem)) + pre[len(sc("{ let mut %s: Vec<%s> = Vec::new();" % (out, elem))):]
+        else:
+            body += sc("\n %s.push(__x%d);" % (out, k)) + sc(" }" * closers)
+        if reverse:
+            base = [Tok(t.ws, t.s, t.line) for t in T[h:h + len(pat) - 4]]
+            base[0].ws = ""
+            base2 = [Tok(t.ws, t.s, t.line) for t in base]
+            new = (pre + sc("\n let mut __i: usize = (") + base + sc(").len();\n while __i > 0 { __i = __i - 1; let __x0 = &(") + base2
+                   + sc(")[__i];") + body + sc("\n } %s }" % out))
+        else:
+            new = pre + sc("\n for __x0 in") + src + sc(" {") + body + sc("\n } %s }" % out)
         if wrapfn:
             new = sc(wrapfn + "(") + new + sc(")")
         new[0].ws = T[h].ws if T[h].ws else " "
         self.toks[h:pos] = new
         self.log.append({"kind": "desugar-iter-chain", "source": " ".join(pat),
-                         "stages": [st[0] for st in stages], "terminal": terminal, "elem": elem, "consumer": call,
+                         "stages": (["rev"] if reverse else []) + [st[0] for st in stages], "terminal": ("find" if find is not None else terminal), "elem": elem, "consumer": call,
                          "why": "std-documented per-element semantics of the adapters; closure bodies inlined verbatim",
                          "drops": "laziness; the iterator's concrete type (value is a Vec)"})
 
